@@ -159,6 +159,75 @@ def witness_each_output_required(out):
     return len(cases)
 
 
+def witness_several_checks(out):
+    """Model-free: a target with TWO output checks on external probe files its command does not touch (one check slow, one fast; in
+    both declaration orders) and a dependant.  build (ok, cached); build (hit); the probe of ONE check is removed; build: the cached
+    result may not be served, the command runs, the check still fails: the build must FAIL (non-zero, within the limit, the dependant
+    does not run) -- whichever check fails and however the checks are scheduled; probe restored; build: succeeds again."""
+    import os, shutil, subprocess
+    grog = vlib.build_grog()
+    base = os.path.join(vlib.scratch(), "severalchecks")
+    shutil.rmtree(base, ignore_errors=True)
+    from concurrent.futures import ThreadPoolExecutor
+
+    def one(arg):
+        order, broken = arg
+        d = os.path.join(base, "%s-%s" % (order, broken))
+        ws, root = os.path.join(d, "ws"), os.path.join(d, "root")
+        os.makedirs(ws); os.makedirs(root)
+        pa, pb, runs = os.path.join(d, "probe_slow"), os.path.join(d, "probe_fast"), os.path.join(d, "runs.log")
+        slow = {"command": 'sleep 1; test -f "%s"' % pa}
+        fast = {"command": 'test -f "%s"' % pb}
+        json.dump({"targets": [
+            {"name": "t", "inputs": ["in.txt"], "outputs": ["out.txt"], "command": 'echo t >> "%s"; cp in.txt out.txt' % runs,
+             "output_checks": [slow, fast] if order == "slow-first" else [fast, slow]},
+            {"name": "u", "dependencies": [":t"], "outputs": ["u.txt"], "command": 'echo u >> "%s"; cp out.txt u.txt' % runs}]},
+            open(os.path.join(ws, "BUILD.json"), "w"))
+        open(os.path.join(ws, "in.txt"), "w").write("v1\n")
+        open(os.path.join(ws, "grog.toml"), "w").write("")
+        for q in (pa, pb):
+            open(q, "w").close()
+        env = bl.grog_env(root, os.path.join(d, "trace"))
+        steps = []
+
+        def build(name):
+            before = open(runs).read().split() if os.path.exists(runs) else []
+            try:
+                p = subprocess.run([grog, "build"], cwd=ws, env=env, stdout=subprocess.PIPE, stderr=subprocess.PIPE, text=True, timeout=60)
+                rc = p.returncode
+            except subprocess.TimeoutExpired:
+                rc = "hang"
+            after = open(runs).read().split() if os.path.exists(runs) else []
+            steps.append({"step": name, "rc": rc, "commands": after[len(before):]})
+        build("build"); build("build (no change)")
+        os.unlink(pb if broken == "fast" else pa)
+        build("build with the probe of the %s check removed" % broken)
+        open(pb if broken == "fast" else pa, "w").close()
+        build("build with the probe back")
+        desc = {"workspace": "//:t (cp in.txt out.txt) with two output checks on external probes (%s; the %s one is made to fail), //:u depends on it" % (order, broken),
+                "history": steps}
+        return order, broken, steps, desc
+    args = [(o, b) for o in ("slow-first", "fast-first") for b in ("fast", "slow")]
+    with ThreadPoolExecutor(4) as ex:
+        results = list(ex.map(one, args))
+    n = len(results)
+    for order, broken, steps, desc in results:
+        if [x["rc"] for x in steps[:2]] != [0, 0] or steps[1]["commands"]:
+            out.violation("several-checks witness: set-up did not behave as expected: %s" % steps[:2], desc, no_input=True)
+        elif steps[2]["rc"] == "hang":
+            out.violation("`grog build` hangs when one of two output checks fails (%s, the %s check fails)" % (order, broken), desc)
+        elif steps[2]["rc"] == 0:
+            out.violation("a build succeeds although one of the target's two output checks fails after execution (%s, the %s check fails)" % (order, broken), desc)
+        elif "u" in steps[2]["commands"]:
+            out.violation("the dependant ran although an output check of its dependency fails (%s, the %s check fails)" % (order, broken), desc)
+        elif steps[3]["rc"] != 0:
+            out.violation("after the probe is back the build still fails (%s, %s): %s" % (order, broken, steps[3]), desc, no_input=True)
+        if out.violations:
+            break
+    shutil.rmtree(base, ignore_errors=True)
+    return n
+
+
 def run(out, tier):
     n = 24 if tier == "quick" else 500
     feats = dict(hc.CLEAN); feats.update({"check": True, "fail": True})
@@ -228,6 +297,7 @@ def run(out, tier):
     import c15
     evals += c15.witness_rerun_timeout(out)
     evals += witness_each_output_required(out)
+    evals += witness_several_checks(out)
     # model: timeouts are not modelled; drop that history from the correspondence
     batch2 = [x for x in batch if x[0] != "timeout"]
     hc.finish(out, "C14", batch2,
